@@ -8,5 +8,7 @@ CONSTANTS
   BugFirstWins = FALSE
   AllowNumericDocKeys = FALSE
   BugOkWithoutAddr = TRUE
+  BugU64ViaI64 = FALSE
+  BugCompKeepsRule = FALSE
 INVARIANTS RedirectHasAddr
 CHECK_DEADLOCK FALSE
